@@ -433,6 +433,46 @@ func metadataCases(ntrees int, base string) {
 					hxs(filepath.Base(p)), d.Qid.Type, d.Qid.Path, d.Mode, d.Length, d.Mtime, hxs(d.Name), b2i(match))
 				stat("ufstree.stats", 1)
 			}
+			// the same fid asked again after the file changed (on disk, and through the fid itself)
+			nre := 0
+			for _, p := range all {
+				st0, e := os.Lstat(p)
+				if e != nil || !st0.Mode().IsRegular() || nre >= 6 {
+					continue
+				}
+				nre++
+				rel, _ := filepath.Rel(root, p)
+				fid, err := t.clnt.FWalk(rel)
+				if err != nil {
+					continue
+				}
+				ok := true
+				same := func(d *go9p.Dir, err error) bool {
+					st, e := os.Lstat(p)
+					if e != nil || err != nil {
+						return false
+					}
+					return d.Length == uint64(st.Size()) && d.Mtime == uint32(st.ModTime().Unix()) && d.Mode&0o777 == uint32(st.Mode().Perm())
+				}
+				d, err := t.clnt.Stat(fid)
+				ok = ok && same(d, err)
+				_ = os.Truncate(p, st0.Size()/2+3)
+				_ = os.Chmod(p, 0o640)
+				_ = os.Chtimes(p, time.Unix(1234567890, 0), time.Unix(1234567890, 0))
+				d, err = t.clnt.Stat(fid)
+				ok = ok && same(d, err)
+				if t.clnt.Open(fid, go9p.ORDWR) == nil {
+					_, _ = t.clnt.Write(fid, []byte("appended through the fid"), uint64(st0.Size()/2+3))
+					d, err = t.clnt.Stat(fid)
+					ok = ok && same(d, err)
+					_ = os.Truncate(p, 1)
+					d, err = t.clnt.Stat(fid)
+					ok = ok && same(d, err)
+				}
+				_ = t.clnt.Clunk(fid)
+				emit("UR %s => OK %d", hxs(rel), b2i(ok))
+				stat("ufstree.restats", 1)
+			}
 			// qid identity: equal path <=> same inode, over all pairs of listed objects
 			// (checked through the US lines: qpath == ino)
 			// deep paths and missing paths through the client
